@@ -228,12 +228,25 @@ func TestC16Runs(t *testing.T) {
 					rp.outs = append(rp.outs, 0)
 				}
 			}
+			// a scenario function that hands back no iteration function at all, without failing its
+			// setup: the setup sample says success (that is what the setup did), every iteration fails
+			nilRun := i%7 == 5 && i%3 != 0 && !rp.setupFailed
+			if nilRun {
+				for k := range rp.outs {
+					rp.outs[k] = 1
+				}
+				badCleanupEvery = 0
+				o.Count("run", "scenario returns no iteration function")
+			}
 			plans = append(plans, rp)
 			cfg := runkit.Config{Mode: "users", Name: rp.name, Metrics: m, Ctx: context.Background(),
 				Opts: options.RunOptions{MaxDuration: 5 * time.Second, Concurrency: 1, MaxIterations: uint64(iters), MaxFailuresRate: 100},
 				Scenario: func(st *f1testing.T) f1testing.RunFn {
 					if rp.setupFailed {
 						st.Fail()
+					}
+					if nilRun {
+						return nil
 					}
 					return func(t *f1testing.T) {
 						id, _ := strconv.Atoi(t.Iteration)
@@ -270,6 +283,16 @@ func TestC16Runs(t *testing.T) {
 				}
 				if badCleanupEvery > 0 {
 					o.Count("run", "with failing cleanups")
+				} else if !rp.setupFailed {
+					// the plan's own outcome counts against the result and the exported metric of this very
+					// run (a run whose scenario handed back no iteration function included: all fail)
+					var wantFail int64
+					for _, oc := range rp.outs {
+						wantFail += int64(oc)
+					}
+					o.Case("c01_ok", []string{kit.I(int64(len(rp.outs)) - wantFail), kit.I(wantFail), "0",
+						kit.I(sn.SuccessfulIterationDurations.Count), kit.I(sn.FailedIterationDurations.Count), kit.I(sn.DroppedIterationCount),
+						"T", kit.I(iter["success"]), kit.I(iter["fail"]), kit.I(iter["dropped"])}, "T", "run", "per-run", "nt")
 				}
 			}
 		}
